@@ -158,6 +158,31 @@ theorem gaussian_target_count {keep : Bool} {a0 a1 : Int} {nrow ncol : Nat} {mas
   rw [← h4] at F
   exact ⟨t0, fun k => ((F k).2.2.2.2.1).symm, h2, h3⟩
 
+/-- **Target ⊆ free cells** (Gaussian): every target cell outside the kept ACS region is a sampled cell that
+is neither protected nor ACS -/
+theorem gaussian_target_subset_free {keep : Bool} {a0 a1 : Int} {nrow ncol : Nat} {mask acs : Grid} {c : Int}
+    {cs : List (Int × Int)} {i t : Grid} (hl : acs.length = mask.length)
+    (h : gaussianSplit keep a0 a1 nrow ncol mask acs c cs = some (i, t)) (k : Nat)
+    (hk : cell t k = true) (ha : (keep && cell acs k) = false) :
+    cell mask k = true ∧ (keep = false → protectedCell nrow ncol a0 a1 k = false) := by
+  obtain ⟨t0, h1, h2, _⟩ := gaussian_target_count hl h
+  have h0 : cell t0 k = true := by rw [h1 k, hk, ha]; rfl
+  have := h2 k h0
+  rw [cell_freeMask keep a0 a1 nrow ncol mask acs hl] at this
+  revert this
+  cases keep <;> cases cell mask k <;> cases protectedCell nrow ncol a0 a1 k <;> simp
+
+/-- when the protected region does not wrap (`a // 2 ≤ n // 2` on both axes — every `acs_region` up to the full
+mask) it is the centred window `[n//2 - a//2, n//2 + a//2)` of rows and columns -/
+theorem protected_region_centred (nrow ncol : Nat) (a0 a1 : Int) (k : Nat) (h0 : 0 ≤ a0) (h1 : 0 ≤ a1)
+    (w0 : a0 / 2 ≤ (nrow : Int) / 2) (w1 : a1 / 2 ≤ (ncol : Int) / 2) :
+    protectedCell nrow ncol a0 a1 k = true ↔
+      (((nrow : Int) / 2 - a0 / 2 ≤ (k / ncol : Nat) ∧ ((k / ncol : Nat) : Int) < (nrow : Int) / 2 + a0 / 2 ∧ k / ncol < nrow) ∧
+       ((ncol : Int) / 2 - a1 / 2 ≤ (k % ncol : Nat) ∧ ((k % ncol : Nat) : Int) < (ncol : Int) / 2 + a1 / 2 ∧ k % ncol < ncol)) := by
+  unfold protectedCell
+  rw [Bool.and_eq_true, List.contains_iff_mem, List.contains_iff_mem, mem_regionIdx nrow a0 _ h0 w0,
+    mem_regionIdx ncol a1 _ h1 w1]
+
 /-- "follows the ratio within one sample": for a request `c ≥ 0` that fits (`c + 1 ≤ #free`) the target
 has exactly `c + 1` new cells, otherwise all free cells -/
 theorem gaussian_target_follows_ratio (c : Int) (free : Nat) (hc : 0 ≤ c) :
@@ -293,6 +318,18 @@ theorem uniform_target_count {keep : Bool} {a0 a1 : Int} {nrow ncol : Nat} {mask
   have F := finish_facts keep a0 a1 nrow ncol mask acs t0 hl h1 h2
   rw [← h4] at F
   exact ⟨t0, fun k => ((F k).2.2.2.2.1).symm, h2, h3⟩
+
+theorem uniform_target_subset_free {keep : Bool} {a0 a1 : Int} {nrow ncol : Nat} {mask acs : Grid} {count : Nat}
+    {chosen : List Nat} {i t : Grid} (hl : acs.length = mask.length)
+    (h : uniformSplit keep a0 a1 nrow ncol mask acs count chosen = .ok (i, t)) (k : Nat)
+    (hk : cell t k = true) (ha : (keep && cell acs k) = false) :
+    cell mask k = true ∧ (keep = false → protectedCell nrow ncol a0 a1 k = false) := by
+  obtain ⟨t0, h1, h2, _⟩ := uniform_target_count hl h
+  have h0 : cell t0 k = true := by rw [h1 k, hk, ha]; rfl
+  have := h2 k h0
+  rw [cell_freeMask keep a0 a1 nrow ncol mask acs hl] at this
+  revert this
+  cases keep <;> cases cell mask k <;> cases protectedCell nrow ncol a0 a1 k <;> simp
 
 /-- the uniform split is total on every draw `rng.choice` can return (no exception path is left) -/
 theorem uniform_split_total (keep : Bool) (a0 a1 : Int) (nrow ncol : Nat) (mask acs : Grid) (count : Nat)
